@@ -43,6 +43,10 @@ def object_decl(ch, objects, typed=True):
         groups = groups[:k] + [{"private": groups[k:k + 1]}] + groups[k + 1:]
     if bare:
         groups.append([[n for n, _ in bare], None])
+        side = ch.side("private-last")
+        if any(isinstance(g, dict) for g in groups) and side.flag(0.5):
+            # the private block after the whole public list: the bare public names stand directly before it
+            groups = [g for g in groups if not isinstance(g, dict)] + [g for g in groups if isinstance(g, dict)]
     return groups
 
 
